@@ -494,7 +494,17 @@ def _check_bind(repo: Repo, res: Result) -> None:
             for nm in pair:
                 if nm in assigns:
                     res.add("C13-BIND", m.qual, f"rebound:{nm}", f"{m.qual} rebinds `{nm}`, one half of the (iterator, length) pair returned by the loop expression, before building the helper", m.file, m.line)
-            ctor = [c for c in ast.walk(nnode) if isinstance(c, ast.Call) and callee_name(c) == hc.name]
+            def _is_helper_ctor(c) -> bool:
+                if callee_name(c) == hc.name:
+                    return True
+                # `self.<attr>(...)` where the class attribute <attr> defaults to the helper class (a
+                # hook for subclasses): the default construction is the helper's
+                if isinstance(c.func, ast.Attribute) and is_name(c.func.value, "self"):
+                    av = repo.find_attr(nc, c.func.attr)
+                    return av is not None and isinstance(av[1], ast.Name) and av[1].id == hc.name
+                return False
+
+            ctor = [c for c in ast.walk(nnode) if isinstance(c, ast.Call) and _is_helper_ctor(c)]
             if len(ctor) != 1:
                 raise AnchorMissing(f"{m.qual}: expected exactly one {hc.name}(...) construction, found {len(ctor)}")
             n_sites += 1
